@@ -59,11 +59,18 @@ ChildrenOf(kind, n, unann) == [j \in 1 .. n |-> ChildOf(kind, j, unann)]
 \* exactly (0, 0) - a real place, and an annotated node or an update may sit there; "la" / "lo" = only the
 \* latitude / only the longitude is 0 (controls).  0 renders to 0.0.  A node that is not annotated (version 0
 \* and location 0/0) is a different thing and keeps its meaning.
-LocAll == {"n", "o", "la", "lo"}
-SetLoc(r, lk) == CASE lk = "n"  -> r
-                   [] lk = "o"  -> [r EXCEPT !.lat = 0, !.lon = 0]
-                   [] lk = "la" -> [r EXCEPT !.lat = 0]
-                   [] lk = "lo" -> [r EXCEPT !.lon = 0]
+\* Zero values of the other fields: "c0" = changeset 0 (an element decoded without the attribute), "v0" = version
+\* 0, "cv0" = both, with the ordinary location - on children and on updates, ways and relations.  (An update with
+\* version 0 *at the origin* would un-annotate the node it is applied to, which voids the "fully annotated"
+\* premise of the geometry law at that time; the symbols are exclusive, so that combination is not generated.)
+LocAll == {"n", "o", "la", "lo", "c0", "v0", "cv0"}
+SetLoc(r, lk) == CASE lk = "n"   -> r
+                   [] lk = "o"   -> [r EXCEPT !.lat = 0, !.lon = 0]
+                   [] lk = "la"  -> [r EXCEPT !.lat = 0]
+                   [] lk = "lo"  -> [r EXCEPT !.lon = 0]
+                   [] lk = "c0"  -> [r EXCEPT !.cs = 0]
+                   [] lk = "v0"  -> [r EXCEPT !.ver = 0]
+                   [] lk = "cv0" -> [r EXCEPT !.cs = 0, !.ver = 0]
 \* children with the location symbols lc[j] (annotated children only)
 ChildrenOfL(kind, n, unann, lc) ==
   [j \in 1 .. n |-> IF kind = "way" /\ j = unann THEN ChildOf(kind, j, unann) ELSE SetLoc(ChildOf(kind, j, unann), lc[j])]
